@@ -2,6 +2,11 @@
 
 package shard
 
+import (
+	meta "github.com/nspcc-dev/neofs-node/pkg/local_object_storage/metabase"
+	oid "github.com/nspcc-dev/neofs-sdk-go/object/id"
+)
+
 // Thin exporters for the C08 monitor (engine package): drive the shard's garbage
 // collector synchronously and in logical steps.  No logic of their own.
 
@@ -12,3 +17,17 @@ func (s *Shard) Verif08RunGC() { s.removeGarbage() }
 // Verif08SetEpoch tells the shard's GC which epoch is current (what the new-epoch
 // event handler stores before anything else).
 func (s *Shard) Verif08SetEpoch(e uint64) { s.gc.currentEpoch.Store(e) }
+
+// Verif08HasGarbageMark tells whether the shard's metabase keeps a garbage mark for
+// the object, whatever overrides it for readers (a lock, expiration).  Diagnosis only.
+func (s *Shard) Verif08HasGarbageMark(a oid.Address) (bool, error) {
+	found := false
+	err := s.metaBase.IterateOverGarbage(func(id oid.ID) error {
+		if id == a.Object() {
+			found = true
+			return meta.ErrInterruptIterator
+		}
+		return nil
+	}, a.Container(), oid.ID{})
+	return found, err
+}
